@@ -19,6 +19,7 @@ func init() {
 			`R06.3 repair actions: DIR - every success path consults os.Lstat, returns early only for a real directory, removes a non-directory before MkdirAll and otherwise ends in MkdirAll; SYMLINK - MkdirAll(parent), removal of whatever exists, then os.Symlink(entry.Dest, path) on every success path; FILE - queued once per file and marked whenever queued; R06.5 no function of pwr / pwr/bowl that changes a tree examines a path with os.Stat (which follows links): the kind of what is at an entry's path is decided with Lstat; ` +
 			`R06.6 a queued file is copied whole from the archive into the target for the same index; R16.7 (shared) no wound is sent before the consumer exists; R06.7 the verdict about a directory reaches what lies below it: each way of finding a directory of the wrong kind writes a record, and every examination of an entry of the build (Lstat, Readlink, opening through the pool - in the three passes) is dominated by a branch whose condition reads that record (directly, through a closure, or through a function-typed parameter resolved at its call sites); ` +
 			`(R06.4 of the design, queue capacity, was dropped as not necessary.) ` +
+			`R05.3/R05.5/R05.6 (shared) the deviation table of the validator: the healer repairs what is reported. ` +
 			`NOT decided: that healed content equals the signed content, validator/healer interleavings, behaviour under cancellation.`,
 		Assumptions: []string{"the healer's repair switch is the function literal in ArchiveHealer.Do that switches on wound.Kind"},
 		Run:         runC06,
@@ -35,6 +36,7 @@ func runC06(c *core.Ctx) {
 	ruleConsumerStartedFirst(c)
 	c.Rule("R06.6", "a queued file is copied whole from the archive into the target, for the same index")
 	ruleHiddenSubtrees(c, "R06.7")
+	ruleDeviationTable(c, woundKinds(c.P))
 	if ho := c.P.Fn("pwr", "ArchiveHealer.healOne"); ho == nil {
 		c.Missing("R06.6", "pwr.(*ArchiveHealer).healOne", "not found")
 	} else {
